@@ -4,7 +4,7 @@
    Units: r = exp(i pi e/2), g = exp(i pi e s), w8 = exp(i pi/4); symbolic units carry their defining equations. *)
 From Coq Require Import List ZArith QArith Qcanon.
 From VF Require Import Base.RingOps Base.Mat Base.Tensor Base.K8 Base.Harness Gates.GateSpecs Gates.Families Sim.Ref Sim.Measure
-  Vendor.Qasm Vendor.QasmRegs Vendor.QasmProofs Vendor.QasmLibProofs Vendor.QasmRegsProofs Vendor.QasmSemProofs Vendor.QasmK16 Vendor.QasmK16Proofs.
+  Vendor.Qasm Vendor.QasmRegs Vendor.QasmEmit Generated.QasmMnemonics Vendor.QasmProofs Vendor.QasmLibProofs Vendor.QasmRegsProofs Vendor.QasmSemProofs Vendor.QasmEmitProofs Vendor.QasmK16 Vendor.QasmK16Proofs.
 
 (* ---- rules of the one-qubit EigenGate families ---- *)
 Theorem C19_qasm_rule_x : forall (K : Type) (O : Ops K), Laws O -> spec_XPow O (ki O) (kopp O (ki O)) (k1 O) = q_x O.
@@ -219,6 +219,107 @@ Theorem C19_stdgates_crz : forall (K : Type) (O : Ops K), Laws O -> forall a ac 
 Proof. exact @stdgates_crz. Qed.
 Print Assumptions C19_stdgates_crz.
 
+(* ---- the regenerated mnemonic table is the emission model; every key of the model means the documented matrix ---- *)
+Theorem C19_qasm_table_is_model : table_ok qasm_table = true.
+Proof. exact @qasm_table_is_model. Qed.
+Print Assumptions C19_qasm_table_is_model.
+
+Theorem C19_emit_sound_X : forall (K : Type) (O0 : Ops K), Laws O0 -> forall q qc : K, kmul O0 q qc = k1 O0 -> kmul O0 q q = w8 O0 -> forall r rc g gc : K, kmul O0 r rc = k1 O0 -> kmul O0 g gc = k1 O0 -> forall (v3 : bool) (s : scls) (e : ecls), let u := eunit O0 e r rc q qc in shift_ok O0 s g gc (fst u) (snd u) -> rows_mean O0 1 ((r, rc) :: nil) q qc (emit_shape (v3, FX, s, e)) (spec_XPow O0 (fst u) (snd u) g).
+Proof. exact @emit_sound_X. Qed.
+Print Assumptions C19_emit_sound_X.
+
+Theorem C19_emit_sound_Y : forall (K : Type) (O0 : Ops K), Laws O0 -> forall q qc : K, kmul O0 q qc = k1 O0 -> kmul O0 q q = w8 O0 -> forall r rc g gc : K, kmul O0 r rc = k1 O0 -> kmul O0 g gc = k1 O0 -> forall (v3 : bool) (s : scls) (e : ecls), let u := eunit O0 e r rc q qc in rows_mean O0 1 ((r, rc) :: nil) q qc (emit_shape (v3, FY, s, e)) (spec_YPow O0 (fst u) (snd u) g).
+Proof. exact @emit_sound_Y. Qed.
+Print Assumptions C19_emit_sound_Y.
+
+Theorem C19_emit_sound_Z : forall (K : Type) (O0 : Ops K), Laws O0 -> forall q qc : K, kmul O0 q qc = k1 O0 -> kmul O0 q q = w8 O0 -> forall r rc g gc : K, kmul O0 r rc = k1 O0 -> kmul O0 g gc = k1 O0 -> forall (v3 : bool) (s : scls) (e : ecls), let u := eunit O0 e r rc q qc in shift_ok O0 s g gc (fst u) (snd u) -> rows_mean O0 1 ((r, rc) :: nil) q qc (emit_shape (v3, FZ, s, e)) (spec_ZPow O0 (fst u) (snd u) g).
+Proof. exact @emit_sound_Z. Qed.
+Print Assumptions C19_emit_sound_Z.
+
+Theorem C19_emit_sound_H : forall (K : Type) (O0 : Ops K), Laws O0 -> forall q qc : K, kmul O0 q qc = k1 O0 -> kmul O0 q q = w8 O0 -> forall r rc g gc : K, kmul O0 r rc = k1 O0 -> kmul O0 g gc = k1 O0 -> forall (v3 : bool) (s : scls) (e : ecls), let u := eunit O0 e r rc q qc in shift_ok O0 s g gc (fst u) (snd u) -> rows_mean O0 1 ((r, rc) :: nil) q qc (emit_shape (v3, FH, s, e)) (spec_HPow O0 (fst u) (snd u) g).
+Proof. exact @emit_sound_H. Qed.
+Print Assumptions C19_emit_sound_H.
+
+Theorem C19_emit_sound_Rx : forall (K : Type) (O0 : Ops K), Laws O0 -> forall q qc : K, kmul O0 q qc = k1 O0 -> kmul O0 q q = w8 O0 -> forall r rc g gc : K, kmul O0 r rc = k1 O0 -> kmul O0 g gc = k1 O0 -> forall (v3 : bool) (s : scls) (e : ecls), let u := eunit O0 e r rc q qc in rows_mean O0 1 ((r, rc) :: nil) q qc (emit_shape (v3, FRx, s, e)) (spec_XPow O0 (fst u) (snd u) g).
+Proof. exact @emit_sound_Rx. Qed.
+Print Assumptions C19_emit_sound_Rx.
+
+Theorem C19_emit_sound_Ry : forall (K : Type) (O0 : Ops K), Laws O0 -> forall q qc : K, kmul O0 q qc = k1 O0 -> kmul O0 q q = w8 O0 -> forall r rc g gc : K, kmul O0 r rc = k1 O0 -> kmul O0 g gc = k1 O0 -> forall (v3 : bool) (s : scls) (e : ecls), let u := eunit O0 e r rc q qc in rows_mean O0 1 ((r, rc) :: nil) q qc (emit_shape (v3, FRy, s, e)) (spec_YPow O0 (fst u) (snd u) g).
+Proof. exact @emit_sound_Ry. Qed.
+Print Assumptions C19_emit_sound_Ry.
+
+Theorem C19_emit_sound_Rz : forall (K : Type) (O0 : Ops K), Laws O0 -> forall q qc : K, kmul O0 q qc = k1 O0 -> kmul O0 q q = w8 O0 -> forall r rc g gc : K, kmul O0 r rc = k1 O0 -> kmul O0 g gc = k1 O0 -> forall (v3 : bool) (s : scls) (e : ecls), let u := eunit O0 e r rc q qc in rows_mean O0 1 ((r, rc) :: nil) q qc (emit_shape (v3, FRz, s, e)) (spec_ZPow O0 (fst u) (snd u) g).
+Proof. exact @emit_sound_Rz. Qed.
+Print Assumptions C19_emit_sound_Rz.
+
+Theorem C19_emit_sound_CZ : forall (K : Type) (O0 : Ops K), Laws O0 -> forall q qc : K, kmul O0 q qc = k1 O0 -> forall r rc g gc : K, kmul O0 r rc = k1 O0 -> kmul O0 g gc = k1 O0 -> forall (v3 : bool) (s : scls) (e : ecls), let u := eunit O0 e r rc q qc in (is_odd e = true -> kmul O0 (fst u) (fst u) = kopp O0 (k1 O0)) -> rows_mean O0 2 ((r, rc) :: nil) q qc (emit_shape (v3, FCZ, s, e)) (spec_CZPow O0 (fst u) (snd u) g).
+Proof. exact @emit_sound_CZ. Qed.
+Print Assumptions C19_emit_sound_CZ.
+
+Theorem C19_emit_sound_CX : forall (K : Type) (O0 : Ops K), Laws O0 -> forall q qc : K, kmul O0 q qc = k1 O0 -> forall r rc g gc : K, kmul O0 r rc = k1 O0 -> kmul O0 g gc = k1 O0 -> forall (v3 : bool) (s : scls) (e : ecls), let u := eunit O0 e r rc q qc in (is_odd e = true -> kmul O0 (fst u) (fst u) = kopp O0 (k1 O0)) -> rows_mean O0 2 ((r, rc) :: nil) q qc (emit_shape (v3, FCX, s, e)) (spec_CXPow O0 (fst u) (snd u) g).
+Proof. exact @emit_sound_CX. Qed.
+Print Assumptions C19_emit_sound_CX.
+
+Theorem C19_emit_sound_CY : forall (K : Type) (O0 : Ops K), Laws O0 -> forall q qc : K, kmul O0 q qc = k1 O0 -> forall r rc g gc : K, kmul O0 r rc = k1 O0 -> kmul O0 g gc = k1 O0 -> forall (v3 : bool) (s : scls) (e : ecls), let u := eunit O0 e r rc q qc in (is_odd e = true -> kmul O0 (fst u) (fst u) = kopp O0 (k1 O0)) -> rows_mean O0 2 ((r, rc) :: nil) q qc (emit_shape (v3, FCY, s, e)) (spec_CYPow O0 (fst u) (snd u) g).
+Proof. exact @emit_sound_CY. Qed.
+Print Assumptions C19_emit_sound_CY.
+
+Theorem C19_emit_sound_Swap : forall (K : Type) (O0 : Ops K), Laws O0 -> forall q qc : K, kmul O0 q qc = k1 O0 -> kmul O0 q q = w8 O0 -> forall r rc g gc : K, kmul O0 g gc = k1 O0 -> forall (v3 : bool) (s : scls) (e : ecls), let u := eunit O0 e r rc q qc in rows_mean O0 2 ((r, rc) :: nil) q qc (emit_shape (v3, FSwap, s, e)) (spec_SwapPow O0 (fst u) (snd u) g).
+Proof. exact @emit_sound_Swap. Qed.
+Print Assumptions C19_emit_sound_Swap.
+
+Theorem C19_emit_sound_CCZ : forall (K : Type) (O0 : Ops K), Laws O0 -> forall q qc : K, kmul O0 q qc = k1 O0 -> kmul O0 q q = w8 O0 -> forall r rc g gc : K, kmul O0 g gc = k1 O0 -> forall (v3 : bool) (s : scls) (e : ecls), let u := eunit O0 e r rc q qc in rows_mean O0 3 ((r, rc) :: nil) q qc (emit_shape (v3, FCCZ, s, e)) (spec_CCZPow O0 (fst u) (snd u) g).
+Proof. exact @emit_sound_CCZ. Qed.
+Print Assumptions C19_emit_sound_CCZ.
+
+Theorem C19_emit_sound_CCX : forall (K : Type) (O0 : Ops K), Laws O0 -> forall q qc : K, kmul O0 q qc = k1 O0 -> kmul O0 q q = w8 O0 -> forall r rc g gc : K, kmul O0 g gc = k1 O0 -> forall (v3 : bool) (s : scls) (e : ecls), let u := eunit O0 e r rc q qc in rows_mean O0 3 ((r, rc) :: nil) q qc (emit_shape (v3, FCCX, s, e)) (spec_CCXPow O0 (fst u) (snd u) g).
+Proof. exact @emit_sound_CCX. Qed.
+Print Assumptions C19_emit_sound_CCX.
+
+Theorem C19_emit_sound_CCY : forall (K : Type) (O0 : Ops K), Laws O0 -> forall q qc : K, kmul O0 q qc = k1 O0 -> kmul O0 q q = w8 O0 -> forall r rc g gc : K, kmul O0 g gc = k1 O0 -> forall (v3 : bool) (s : scls) (e : ecls), let u := eunit O0 e r rc q qc in rows_mean O0 3 ((r, rc) :: nil) q qc (emit_shape (v3, FCCY, s, e)) (spec_CCYPow O0 (fst u) (snd u) g).
+Proof. exact @emit_sound_CCY. Qed.
+Print Assumptions C19_emit_sound_CCY.
+
+Theorem C19_emit_sound_CSwap : forall (K : Type) (O0 : Ops K), Laws O0 -> forall (q qc : K) (v3 : bool) (s : scls) (e : ecls), rows_mean O0 3 nil q qc (emit_shape (v3, FCSwap, s, e)) (spec_CSwap O0).
+Proof. exact @emit_sound_CSwap. Qed.
+Print Assumptions C19_emit_sound_CSwap.
+
+Theorem C19_emit_sound_Id1 : forall (K : Type) (O0 : Ops K), Laws O0 -> forall q qc : K, kmul O0 q qc = k1 O0 -> kmul O0 q q = w8 O0 -> forall (v3 : bool) (s : scls) (e : ecls), rows_mean O0 1 nil q qc (emit_shape (v3, FId1, s, e)) (mid O0 2).
+Proof. exact @emit_sound_Id1. Qed.
+Print Assumptions C19_emit_sound_Id1.
+
+Theorem C19_emit_sound_Id2 : forall (K : Type) (O0 : Ops K), Laws O0 -> forall q qc : K, kmul O0 q qc = k1 O0 -> kmul O0 q q = w8 O0 -> forall (v3 : bool) (s : scls) (e : ecls), rows_mean O0 2 nil q qc (emit_shape (v3, FId2, s, e)) (mid O0 4).
+Proof. exact @emit_sound_Id2. Qed.
+Print Assumptions C19_emit_sound_Id2.
+
+Theorem C19_emit_sound_PhasedX : forall (K : Type) (O0 : Ops K), Laws O0 -> forall q qc : K, kmul O0 q qc = k1 O0 -> kmul O0 q q = w8 O0 -> forall r rc g gc : K, kmul O0 r rc = k1 O0 -> kmul O0 g gc = k1 O0 -> forall fh fhc : K, kmul O0 fh fhc = k1 O0 -> forall (v3 : bool) (s : scls) (e : ecls), let u := eunit O0 e r rc q qc in rows_mean O0 1 ((r, rc) :: (fh, fhc) :: nil) q qc (emit_shape (v3, FPhasedX, s, e)) (spec_PhasedX O0 (kmul O0 fh fh) (kmul O0 fhc fhc) (fst u) (snd u) g).
+Proof. exact @emit_sound_PhasedX. Qed.
+Print Assumptions C19_emit_sound_PhasedX.
+
+Theorem C19_emit_sound_PhasedXZ : forall (K : Type) (O0 : Ops K), Laws O0 -> forall q qc : K, kmul O0 q qc = k1 O0 -> kmul O0 q q = w8 O0 -> forall r rc : K, kmul O0 r rc = k1 O0 -> forall fh fhc zh zhc : K, kmul O0 fh fhc = k1 O0 -> kmul O0 zh zhc = k1 O0 -> forall (v3 : bool) (s : scls) (e : ecls), rows_mean O0 1 ((r, rc) :: (fh, fhc) :: (zh, zhc) :: nil) q qc (emit_shape (v3, FPhasedXZ, s, e)) (spec_PhasedXZ O0 (kmul O0 zh zh) (kmul O0 zhc zhc) (kmul O0 fh fh) (kmul O0 fhc fhc) r rc).
+Proof. exact @emit_sound_PhasedXZ. Qed.
+Print Assumptions C19_emit_sound_PhasedXZ.
+
+Theorem C19_emit_sound_QasmU : forall (K : Type) (O0 : Ops K), Laws O0 -> forall q qc : K, kmul O0 q qc = k1 O0 -> kmul O0 q q = w8 O0 -> forall r rc : K, kmul O0 r rc = k1 O0 -> forall fh fhc zh zhc : K, kmul O0 fh fhc = k1 O0 -> kmul O0 zh zhc = k1 O0 -> forall (v3 : bool) (s : scls) (e : ecls), rows_mean O0 1 ((r, rc) :: (fh, fhc) :: (zh, zhc) :: nil) q qc (emit_shape (v3, FQasmU, s, e)) (mscale O0 (kmul O0 fh zh) (mprod O0 2 (spec_ZPow O0 zh zhc zhc :: spec_YPow O0 r rc rc :: spec_ZPow O0 fh fhc fhc :: nil))).
+Proof. exact @emit_sound_QasmU. Qed.
+Print Assumptions C19_emit_sound_QasmU.
+
+Theorem C19_emit_sound_CtrlX : forall (K : Type) (O0 : Ops K), Laws O0 -> forall (q qc : K) (v3 : bool) (s : scls) (e : ecls), rows_mean O0 2 nil q qc (emit_shape (v3, FCtrlX, s, e)) (ctrl_matrix O0 (2%nat :: nil) ((1%nat :: nil) :: nil) (spec_XPow O0 (ki O0) (kopp O0 (ki O0)) (k1 O0))).
+Proof. exact @emit_sound_CtrlX. Qed.
+Print Assumptions C19_emit_sound_CtrlX.
+
+Theorem C19_emit_sound_CtrlY : forall (K : Type) (O0 : Ops K), Laws O0 -> forall (q qc : K) (v3 : bool) (s : scls) (e : ecls), rows_mean O0 2 nil q qc (emit_shape (v3, FCtrlY, s, e)) (ctrl_matrix O0 (2%nat :: nil) ((1%nat :: nil) :: nil) (spec_YPow O0 (ki O0) (kopp O0 (ki O0)) (k1 O0))).
+Proof. exact @emit_sound_CtrlY. Qed.
+Print Assumptions C19_emit_sound_CtrlY.
+
+Theorem C19_emit_sound_CtrlZ : forall (K : Type) (O0 : Ops K), Laws O0 -> forall (q qc : K) (v3 : bool) (s : scls) (e : ecls), rows_mean O0 2 nil q qc (emit_shape (v3, FCtrlZ, s, e)) (ctrl_matrix O0 (2%nat :: nil) ((1%nat :: nil) :: nil) (spec_ZPow O0 (ki O0) (kopp O0 (ki O0)) (k1 O0))).
+Proof. exact @emit_sound_CtrlZ. Qed.
+Print Assumptions C19_emit_sound_CtrlZ.
+
+Theorem C19_emit_sound_CtrlH : forall (v3 : bool) (s : scls) (e : ecls), rows_mean O8 2 nil (k1 O8) (k1 O8) (emit_shape (v3, FCtrlH, s, e)) (ctrl_matrix O8 (2%nat :: nil) ((1%nat :: nil) :: nil) (spec_HPow O8 (ki O8) (kopp O8 (ki O8)) (k1 O8))).
+Proof. exact @emit_sound_CtrlH. Qed.
+Print Assumptions C19_emit_sound_CtrlH.
+
 (* ---- non-vacuity: a model of the Laws containing the symbolic units the theorems quantify over ---- *)
 Example C19_K16Laws : Laws O16.
 Proof. exact @K16Laws. Qed.
@@ -243,4 +344,8 @@ Print Assumptions C19_units_generic.
 Example C19_hpow_instance : spec_HPow O16 pyth (kconj O16 pyth) (k1 O16) = mscale O16 (kmul O16 (k1 O16) pyth) (mprod O16 2 (q_ry O16 zeta16 zeta16c :: q_rx O16 pyth (kconj O16 pyth) :: q_ry O16 zeta16c zeta16 :: nil)).
 Proof. exact @hpow_instance. Qed.
 Print Assumptions C19_hpow_instance.
+
+Example C19_odd_class_units : forallb (fun k : Z => k16_eqb (kmul O16 (kpowZ O16 zeta16 zeta16c k) (kpowZ O16 zeta16 zeta16c k)) (kopp O16 (k1 O16))) (4%Z :: (-4)%Z :: 12%Z :: 20%Z :: nil) = true.
+Proof. exact @odd_class_units. Qed.
+Print Assumptions C19_odd_class_units.
 
